@@ -693,6 +693,25 @@ func (e *Eval) compile(node ast.Node) error {
 		//
 		patches := []int{}
 
+		// The value being switched upon is compiled once for each
+		// case-expression.  If there are none (a lone default) it
+		// would never be compiled at all, and an error in it would
+		// go unnoticed: compile it once, and drop the result.
+		cases := 0
+		for _, opt := range node.Choices {
+			if !opt.Default {
+				cases += len(opt.Expr)
+			}
+		}
+		if cases == 0 {
+			mark := len(e.instructions)
+			err := e.compile(node.Value)
+			if err != nil {
+				return err
+			}
+			e.instructions = e.instructions[:mark]
+		}
+
 		// We have to assemble each choice
 		for _, opt := range node.Choices {
 
